@@ -126,10 +126,10 @@ func (r *RequestContext) Cookie(name string) string {
 		return ""
 	}
 
-	for _, cookie := range strings.Split(values, ";") {
-		if cookieName, cookieValue, ok := strings.Cut(cookie, "="); ok && strings.TrimSpace(cookieName) == name {
-			return strings.TrimSpace(cookieValue)
-		}
+	// parse the cookies the same way the HTTP services do
+	req := http.Request{Header: http.Header{"Cookie": []string{values}}}
+	if cookie, err := req.Cookie(name); err == nil {
+		return cookie.Value
 	}
 
 	return ""
